@@ -24,15 +24,15 @@ type Obj struct {
 }
 
 type SliceV struct {
-	Len   *Expr
-	Elem  Val // generic element (nil if empty / unknown)
-	ElemT types.Type
-	Str   bool  // a string rather than a slice
-	Ident *Expr // identity of the contents for blobs read from a stream / symbolic fields (nil for built slices)
-	Items []Val // literal contents when known (small)
-	Depth int
-	Sym   bool
-	Path  string
+	Len     *Expr
+	Elem    Val // generic element (nil if empty / unknown)
+	ElemT   types.Type
+	Str     bool  // a string rather than a slice
+	Ident   *Expr // identity of the contents for blobs read from a stream / symbolic fields (nil for built slices)
+	Items   []Val // literal contents when known (small)
+	Depth   int
+	Sym     bool
+	Path    string
 	bodyOf  *StreamV // the body of the box being decoded (readBoxBody): reading it continues the reader's stream
 	bytesOf *StreamV // Bytes() of an in-memory writer
 	from    *StreamV // stream this blob was read from …
@@ -41,8 +41,8 @@ type SliceV struct {
 	viewOff *Expr    // for views produced by slicing a cursor blob: offset in the parent blob
 	viewIdx int      // item index of the bytes item this view consumed
 	parent  *SliceV
-	made    bool     // created by make([]byte, n): may be filled positionally with binary.PutUintN
-	wpos    *Expr    // bytes written so far by positional writes
+	made    bool  // created by make([]byte, n): may be filled positionally with binary.PutUintN
+	wpos    *Expr // bytes written so far by positional writes
 }
 
 // cursor: a blob that is parsed with index / slice expressions is treated as a sequential
@@ -82,12 +82,12 @@ type TypeV struct{ T types.Type }
 
 // Item is one stream operation.
 type Item struct {
-	Kind  string // int | bytes | str | zero | children | child | hdr | unity | pad
-	W     *Expr  // width in bits
-	V     Val    // value read / written
-	Loops []string
-	Pos   token.Pos
-	Note  string
+	Kind       string // int | bytes | str | zero | children | child | hdr | unity | pad
+	W          *Expr  // width in bits
+	V          Val    // value read / written
+	Loops      []string
+	Pos        token.Pos
+	Note       string
 	loopBounds []*Expr
 	loopIDs    []int
 }
